@@ -603,6 +603,56 @@ func runC16(ctx *Ctx, idx int) {
 	if d3, err := proto.Marshal(tmsg); err != nil || !bytes.Equal(d3, data) {
 		viol("remarshal-differs", map[string]interface{}{"error": fmt.Sprint(err)})
 	}
+	// more than 64 KiB of struct elements whose size does not divide 65536
+	// (6 bytes, 12 000 to 30 000 of them): whatever is done batch-wise for big
+	// arrays must come out like the small ones
+	if idx%24 == 5 {
+		type six struct {
+			A uint32
+			B uint16
+		}
+		m := 12000 + r.Intn(18000)
+		bix := make([]int32, m)
+		bel := make([]six, m)
+		cur := int32(r.Intn(5))
+		for i := range bix {
+			bix[i] = cur
+			cur += int32(1 + r.Intn(3))
+			bel[i] = six{A: uint32(i)*2654435761 + 7, B: uint16(i * 31)}
+		}
+		pv, stack := try(func() {
+			ba, err := array.New(bix, bel)
+			if err != nil || ba == nil {
+				viol("big-struct-array-build-failed", map[string]interface{}{"error": fmt.Sprint(err), "elements": m})
+				return
+			}
+			d, _ := proto.Marshal(ba)
+			bl, _ := array.NewEmpty(six{})
+			if proto.Unmarshal(d, bl) != nil {
+				viol("big-struct-array-roundtrip-failed", map[string]interface{}{"elements": m})
+				return
+			}
+			for _, a := range []*array.Array{ba, bl} {
+				for i := 0; i < m; i += 1 + i%7 {
+					v, ok := a.Get(bix[i])
+					if !ok || v != interface{}(bel[i]) {
+						viol("struct-wrong-answer", map[string]interface{}{"element_type": "struct{uint32;uint16}", "elements": m, "element_bytes": 6 * m, "position": i, "index": bix[i], "found": ok, "value": fmt.Sprint(v), "expected": fmt.Sprint(bel[i])})
+						return
+					}
+					if i+1 < m && bix[i]+1 != bix[i+1] {
+						if v2, ok2 := a.Get(bix[i] + 1); ok2 || v2 != nil {
+							viol("struct-wrong-answer", map[string]interface{}{"element_type": "struct{uint32;uint16}", "index": bix[i] + 1, "what": "absent index reported present"})
+							return
+						}
+					}
+				}
+			}
+			ctx.Count("arrays:struct_elements_beyond_64KiB", 1)
+		})
+		if pv != nil {
+			viol("accessor-panic", map[string]interface{}{"element_type": "struct{uint32;uint16}", "elements": m, "panic": fmt.Sprint(pv), "stack": stack})
+		}
+	}
 	// struct elements with blank padding fields through the generic array
 	if idx%6 == 3 && n > 0 {
 		ps := make([]PadStruct, n)
@@ -793,7 +843,7 @@ func init() {
 		Run:           runC16,
 		MinNontrivial: func(tier string) int { return 500 },
 		Gates: shapeGates("type:U16", "type:U32", "type:U64", "type:I16", "type:I32", "type:I64", "arrays:all_indexes_probed", "arrays:with_empty_words", "arrays:empty", "arrays:single",
-			"arrays:struct_elements", "arrays:padded_struct_elements", "arrays:defined_element_types", "rejected:ErrIndexNotAscending:equal", "rejected:ErrIndexNotAscending:descending", "rejected:ErrIndexLen", "invalid:every_position_lists", "rejected_init_leaves_fresh_value_empty", "rejected_init_leaves_used_array_untouched", "probes:typed-after-roundtrip", "probes:generic-after-roundtrip", "long_lived_load_target_loaded", "long_lived_load_target_dense_before_load"),
+			"arrays:struct_elements", "arrays:struct_elements_beyond_64KiB", "arrays:padded_struct_elements", "arrays:defined_element_types", "rejected:ErrIndexNotAscending:equal", "rejected:ErrIndexNotAscending:descending", "rejected:ErrIndexLen", "invalid:every_position_lists", "rejected_init_leaves_fresh_value_empty", "rejected_init_leaves_used_array_untouched", "probes:typed-after-roundtrip", "probes:generic-after-roundtrip", "long_lived_load_target_loaded", "long_lived_load_target_dense_before_load"),
 		Assumptions: []string{"probes stay inside the bitmap span, as the statement says"},
 	})
 }
